@@ -129,7 +129,7 @@ pub fn sweep_notes(rep: &mut Report) {
 
 /// an envelope configured with an out-of-range value behaves identically to one configured with the bound
 pub fn differential(ctx: &Ctx) -> Report {
-    let n = ctx.budget(6, 2_000, 10_000) as usize;
+    let n = ctx.budget(6, 20_000, 1_000_000) as usize;
     let shards = if ctx.tier == Tier::Small { 1 } else { 64 };
     par_shards(ctx, shards, |sh| {
         let mut rep = Report::new();
